@@ -171,6 +171,7 @@ impl Personality {
     }
 }
 
+#[derive(Clone)]
 pub enum Source {
     Seed { rng: Rng, p: Personality },
     Trace(Trace),
@@ -255,6 +256,8 @@ pub struct RunResult {
     pub live_after_full_gc: Option<Vec<usize>>,
     pub unread_messages: u64,
     pub string_steps: Vec<u64>,
+    /// largest sum of the threads' heap sizes seen at the end of a run_n_steps call
+    pub peak_heap: usize,
 }
 
 #[derive(Serialize, Deserialize, Clone, Debug)]
@@ -317,6 +320,16 @@ pub struct RunOptions {
     pub abandon_thread: u32,
     /// bound for the "every runnable task keeps running" invariant, in scheduler turns per task
     pub progress_window_factor: u64,
+    /// first value the host's `next_int()` returns (workload size parameter of W-bounded)
+    #[serde(default = "default_next_int")]
+    pub next_int_base: i64,
+    /// remember which steps executed a resumable string instruction (reference runs only)
+    #[serde(default)]
+    pub record_string_steps: bool,
+}
+
+fn default_next_int() -> i64 {
+    100
 }
 
 impl Default for RunOptions {
@@ -330,6 +343,8 @@ impl Default for RunOptions {
             drop_at_step: u64::MAX,
             abandon_thread: u32::MAX,
             progress_window_factor: 4,
+            next_int_base: 100,
+            record_string_steps: false,
         }
     }
 }
@@ -377,6 +392,7 @@ pub struct Sim {
     readline_n: u64,
     /// global indices of the steps that executed a resumable string instruction (capped)
     pub string_steps: Vec<u64>,
+    record_string_steps: bool,
 }
 
 fn phase_u8(p: GcPhase) -> u8 {
@@ -449,7 +465,7 @@ fn risky(i: &Instr) -> bool {
 }
 
 impl Sim {
-    fn new(src: Source, progress_window_factor: u64) -> Self {
+    fn new(src: Source, progress_window_factor: u64, next_int_base: i64) -> Self {
         let rec = match &src {
             Source::Seed { p, .. } => Trace::neutral(
                 if p.gc == GcTemplate::Off {
@@ -497,9 +513,10 @@ impl Sim {
             phase_instr_names: HashMap::new(),
             progress_window_factor,
             faults_active: true,
-            next_int: 100,
+            next_int: next_int_base,
             readline_n: 0,
             string_steps: vec![],
+            record_string_steps: false,
         }
     }
 
@@ -887,7 +904,7 @@ impl Sim {
                 string_op_in_flight,
             } => {
                 let t = self.ordinal(*thread, *is_main);
-                if string_instr(instr) && self.string_steps.len() < 50_000 {
+                if self.record_string_steps && string_instr(instr) && self.string_steps.len() < 50_000 {
                     self.string_steps.push(self.step_seq);
                 }
                 self.step_seq += 1;
@@ -1309,7 +1326,8 @@ pub fn run_once(make_rt: &dyn Fn() -> Runtime, src: Source, opts: &RunOptions) -
         quarantine: opts.quarantine,
         selfcheck_every: opts.selfcheck_every,
     });
-    let sim = Rc::new(RefCell::new(Sim::new(src, opts.progress_window_factor)));
+    let sim = Rc::new(RefCell::new(Sim::new(src, opts.progress_window_factor, opts.next_int_base)));
+    sim.borrow_mut().record_string_steps = opts.record_string_steps;
     verif::install(Box::new(Ctl(sim.clone())));
 
     let mut rt = Some(make_rt());
@@ -1320,13 +1338,18 @@ pub fn run_once(make_rt: &dyn Fn() -> Runtime, src: Source, opts: &RunOptions) -
     let mut reported_error: Option<String> = None;
     let mut post_calls_left = opts.post_done_calls;
     let mut live_after_full_gc = None;
+    let mut peak_heap = 0usize;
 
     'run: loop {
         let rtm = rt.as_mut().unwrap();
         let k = sim.borrow_mut().decide_budget(false);
         // never hand out more than what is left under the step cap (a budget of u32::MAX would
         // otherwise keep a non-terminating program inside one call for four billion instructions)
-        let left = opts.step_cap.saturating_sub(sim.borrow().step_seq).max(1);
+        let left = opts
+            .step_cap
+            .min(opts.drop_at_step)
+            .saturating_sub(sim.borrow().step_seq)
+            .max(1);
         let k = if (k as u64) > left { left as u32 } else { k };
         {
             let mut s = sim.borrow_mut();
@@ -1370,6 +1393,10 @@ pub fn run_once(make_rt: &dyn Fn() -> Runtime, src: Source, opts: &RunOptions) -
             s.count("probe_steps_consumed_differs_from_executed");
         }
         let infos = rtm.verif_threads();
+        let heap_now: usize = infos.iter().map(|t| t.heap_size).sum();
+        if heap_now > peak_heap {
+            peak_heap = heap_now;
+        }
         if infos.iter().any(|t| t.string_op_in_flight) {
             s.count("probe_slice_boundary_in_string_op");
         }
@@ -1520,6 +1547,12 @@ pub fn run_once(make_rt: &dyn Fn() -> Runtime, src: Source, opts: &RunOptions) -
             }
             _ => {}
         }
+        // a lifecycle fault lands exactly after instruction `drop_at_step`, before the host gets
+        // to answer anything at this boundary (so the dropped state does not depend on servicing)
+        if s.step_seq >= opts.drop_at_step {
+            outcome = Some(Outcome::Dropped);
+            break 'run;
+        }
         drop(s);
         // ---- service host calls ---------------------------------------------------------------
         let mut fault: Option<Violation> = None;
@@ -1559,10 +1592,6 @@ pub fn run_once(make_rt: &dyn Fn() -> Runtime, src: Source, opts: &RunOptions) -
             break 'run;
         }
         let s = sim.borrow();
-        if s.step_seq >= opts.drop_at_step {
-            outcome = Some(Outcome::Dropped);
-            break 'run;
-        }
         if s.step_seq >= opts.step_cap || calls >= 4 * opts.step_cap {
             outcome = Some(Outcome::Cap);
             break 'run;
@@ -1592,7 +1621,9 @@ pub fn run_once(make_rt: &dyn Fn() -> Runtime, src: Source, opts: &RunOptions) -
             });
         }
         drop(s);
-        if opts.completeness_probe && matches!(outcome, Some(Outcome::Done) | Some(Outcome::Error(_))) {
+        if opts.completeness_probe
+            && matches!(outcome, Some(Outcome::Done) | Some(Outcome::Error(_)) | Some(Outcome::Dropped))
+        {
             let r = catch_unwind(AssertUnwindSafe(|| {
                 rtm.verif_full_gc();
                 rtm.verif_full_gc();
@@ -1614,6 +1645,28 @@ pub fn run_once(make_rt: &dyn Fn() -> Runtime, src: Source, opts: &RunOptions) -
                     outcome = Some(Outcome::Fault);
                 }
             }
+        }
+    }
+    if matches!(outcome, Some(Outcome::Dropped)) {
+        let mut s = sim.borrow_mut();
+        for t in &thread_stats {
+            match t.phase {
+                0 => s.count("f8_drop_with_thread_idle"),
+                1 => s.count("f8_drop_with_thread_marking"),
+                _ => s.count("f8_drop_with_thread_sweeping"),
+            }
+            if t.string_op_in_flight {
+                s.count("f8_drop_mid_string_op");
+            }
+            if t.parked {
+                s.count("f8_drop_with_task_parked");
+            }
+        }
+        if s.chans.values().any(|q| !q.is_empty()) {
+            s.count("f8_drop_with_messages_queued");
+        }
+        if thread_stats.len() >= 2 {
+            s.count("f8_drop_with_tasks_alive");
         }
     }
     // dropping the runtime is part of the run: double frees and accesses to reclaimed objects in
@@ -1672,6 +1725,7 @@ pub fn run_once(make_rt: &dyn Fn() -> Runtime, src: Source, opts: &RunOptions) -
         live_after_full_gc,
         unread_messages: unread,
         string_steps: s.string_steps,
+        peak_heap,
     }
 }
 
@@ -1681,4 +1735,46 @@ pub fn is_internal_error(rendered: &str) -> bool {
         || first.contains("internal error")
         || first.contains("ffi is not enabled")
         || first.contains("failed to load")
+}
+
+/// A host for harnesses that drive runtimes directly (several at once, no controller installed):
+/// services every pending host call of `rt`, or none of them.
+pub struct PlainHost {
+    sim: Rc<RefCell<Sim>>,
+}
+
+impl Default for PlainHost {
+    fn default() -> Self {
+        Self::new()
+    }
+}
+
+impl PlainHost {
+    pub fn new() -> Self {
+        PlainHost {
+            sim: Rc::new(RefCell::new(Sim::new(
+                Source::Trace(Trace::neutral(GcBase::Default, 4096)),
+                4,
+                100,
+            ))),
+        }
+    }
+
+    pub fn serve_all(&self, rt: &mut Runtime) -> Result<u32, String> {
+        let mut served = 0;
+        for th in rt.iter_threads_mut() {
+            let Some(func) = th.get_pending_host_func() else {
+                continue;
+            };
+            let r = catch_unwind(AssertUnwindSafe(|| service(&self.sim, th, func, 0)));
+            if let Err(e) = r {
+                return Err(panic_text(e));
+            }
+            served += 1;
+        }
+        // nothing is judged from these logs; keep them from growing
+        let mut s = self.sim.borrow_mut();
+        s.observed = Observed::default();
+        Ok(served)
+    }
 }
